@@ -311,3 +311,7 @@ Proof.
   destruct (connectNamedObjArgs fuel x s) as [[r s']| |]; auto.
   destruct W as (g' & [A B C] & _). eauto.
 Qed.
+
+(** the opcode-table rows of the two leading arguments of a Method: a name path (no arguments) and a byte constant *)
+Definition npIdx : N := match opcodeTableIndex aml_pOpIntNamePath true with Some i => i | None => 0 end.
+Definition bpIdx : N := match opcodeTableIndex aml_pOpBytePrefix true with Some i => i | None => 0 end.
